@@ -271,7 +271,12 @@ def run_case(case, ctx):
         fail, _l = judge(ra, text, "dbg, text at the very start of the file")
         if fail is None:
             ca, cb = ra.get("outcome") == "compile_error", rb.get("outcome") == "compile_error"
-            if ca != cb or (not ca and ra.get("outcome") == "ok" and rb.get("outcome") == "ok" and ra.get("stdout") != rb.get("stdout")):
+            # (functions and natives print their address: not part of what the text means)
+            sa, sb = (re.sub(r"0x[0-9a-f]+", "0xADDR", x.get("stdout") or "") for x in (ra, rb))
+            # (texts grown from fixture files may read the clock, the environment or random numbers: only their
+            # verdict is compared)
+            same_out = sa == sb or (seed is not None and case[0][0] != "gen")
+            if ca != cb or (not ca and ra.get("outcome") == "ok" and rb.get("outcome") == "ok" and not same_out):
                 fail = Failure("%s/leading-blank-changes-the-text" % PROPERTY,
                                "the text alone: %s, stdout %r; after one blank: %s, stdout %r\n--- text\n%s" %
                                (ra.get("outcome"), (ra.get("stdout") or "")[:200], rb.get("outcome"), (rb.get("stdout") or "")[:200], text[:3000]),
